@@ -462,9 +462,14 @@ class Evaluator:
                                             prior[2] + (("star", args[0]),))
                 else:
                     self.env[f.value.id] = ("binop", "Add", prior, args[0])
-            if isinstance(f.value, ast.Name) and f.value.id in self.env \
-                    and name in ("append", "add") and len(args) == 1:
-                prior = self.env[f.value.id]
+            if isinstance(f.value, ast.Name) and name in ("append", "add") \
+                    and len(args) == 1 and (
+                        f.value.id in self.env
+                        or (f.value.id in self.sig.params
+                            and f.value.id not in self.assume)):
+                # (a parameter that is appended to: the running value is the
+                # parameter extended by the new element)
+                prior = self.env.get(f.value.id, ("param", f.value.id))
                 src = self.loops[-1] if self.loops else None
                 if prior[0] == "lit" and not prior[2]:
                     self.env[f.value.id] = ("seq", prior[1], args[0], src, ())
